@@ -76,6 +76,7 @@ def step(kind, contents, n, op, target, body, cond, *, world=None):
         facts["commits0"] = mstore.head_commits(PATH)
     facts["obs0"] = mstore.observe(store)
     ret = None
+    w.muts = 0
     try:
         if op == 0:
             ret = store.import_one(name, None, [body], message="m", replace_etag=etag)
@@ -93,7 +94,7 @@ def step(kind, contents, n, op, target, body, cond, *, world=None):
         want, S2 = SP.delete(S, name, meaning)
     else:
         want, S2 = "ok", S
-    facts.update(outcome=outcome, want=want, S2=S2, ret=ret, store=store)
+    facts.update(outcome=outcome, want=want, S2=S2, ret=ret, store=store, muts=w.muts)
     facts["obs1"] = mstore.observe(store)
     fresh = mstore.open_store(kind, PATH)  # restart: new store object, empty caches
     facts["obs_restart"] = mstore.observe(fresh)
